@@ -27,7 +27,7 @@ const (
 	minSites       = 40  // a batch counts as an observation only if this many sites ...
 	minPerSite     = 100 // ... produced at least this many values each in that batch
 	corpusBase     = 1_000_000_000
-	minNontrivialQ = 2000
+	minNontrivialQ = 200000
 )
 
 func (Driver) Info() core.Info {
@@ -94,7 +94,7 @@ func (Driver) Run(c *core.Ctx) {
 		nt bool
 	}
 	var recs []rec
-	n := int64(c.N(5000, 90000))
+	n := int64(c.N(100000, 600000))
 	var prof map[string]time.Duration
 	if os.Getenv("C06_PROFILE") != "" {
 		prof = map[string]time.Duration{}
@@ -212,6 +212,12 @@ func knownValue(r *core.Rand, ty cty.Type) cty.Value {
 }
 
 func gs(v cty.Value) string {
+	if v == cty.NilVal {
+		return "cty.NilVal"
+	}
+	if hugeNumber(v, 0) {
+		return "<value holding a number with an astronomically large exponent, not printed>"
+	}
 	s := ""
 	o := core.Guard(func() { s = fmt.Sprintf("%#v", v) })
 	if o.Panicked {
